@@ -53,7 +53,8 @@ EXPECTED_PROBES = ["alloc_fault_fired", "retry_after_alloc_error", "batch_size_1
                    "more_than_64_patterns", "layout_F", "layout_strided", "layout_swapped",
                    "nonunit_calibration", "integer_origin_outside_detector", "origin_given_noncontiguous",
                    "shift_mode_nearest", "shift_mode_bicubic", "planted_plane_explicit_positions",
-                   "detector_mask_bool", "detector_mask_float", "detector_mask_int", "detector_mask_hole"]
+                   "detector_mask_bool", "detector_mask_float", "detector_mask_int", "detector_mask_hole",
+                   "forward_workflow", "forward_with_explicit_positions"]
 
 _ctx = {}
 
@@ -100,7 +101,7 @@ def gen(rng: Rng, tier, i):
     for j in range(rng.pick([4, 6, 9])):
         r = rng.fork(("op", j))
         k = r.weighted([("calc", 4), ("fit", 2), ("shift", 2), ("plant_plane", 2), ("plant_const", 1),
-                        ("plant_int", 3), ("plant_plane_pos", 1.5)])
+                        ("plant_int", 3), ("plant_plane_pos", 1.5), ("forward", 1.5)])
         b = simsched.batch_size_knob(r, n)
         op = {"op": k, "b": b}
         if k in ("calc", "shift", "plant_int") and r.chance(0.3):
@@ -122,6 +123,13 @@ def gen(rng: Rng, tier, i):
             op["mode"] = x.pick(["bilinear", "bilinear", "bilinear", "nearest", "bicubic"])
             op["wrap"] = x.chance(0.3)       # integer origins outside [0, size): several wraps
             op["noncontig"] = x.chance(0.2)  # origins handed over as a non-contiguous tensor
+        if k == "forward":
+            # the one-call workflow must equal the step-by-step calls with the same arguments
+            x = r.fork("fw")
+            op.update(method=x.pick(["plane", "plane", "constant"]), coord=[x.pick([0, 0, 1]), x.pick([0, 0, 2])],
+                      mode=x.pick(["bilinear", "bilinear", "nearest"]), fit=x.chance(0.85),
+                      shift=x.chance(0.8), pos=x.pick([None, None, "affine", "jitter", "serpentine", "permuted"]),
+                      seed=x.randrange(10 ** 6), kw=x.chance(0.5))
         if k == "plant_plane_pos":
             # a plane over EXPLICIT probe positions (scaled, offset, jittered, permuted)
             op["coef"] = [[round(r.uniform(-0.5, 0.5), 3), round(r.uniform(-0.5, 0.5), 3),
@@ -420,6 +428,70 @@ def run(plan):
                     viol("integer_shift_not_roll", f"{tag} det={plan['det']} coord={coord} mode={mode}: "
                          f"max deviation from np.roll {worst:.3g}", "integer_shift_not_roll" + (
                              "" if mode == "bilinear" else ":" + mode))
+            elif k == "forward":
+                bump(probes, "forward_workflow")
+                g = np.random.Generator(np.random.PCG64(op["seed"]))
+                xs, ys = np.meshgrid(np.arange(sx), np.arange(sy), indexing="ij")
+                pos = None
+                if op["pos"] and op["fit"]:
+                    P = np.stack([xs.ravel(), ys.ravel()], -1).astype(np.float64)
+                    if op["pos"] == "affine":
+                        P = P * np.array([2.5, 0.7]) + np.array([10.0, -3.0])
+                    elif op["pos"] == "jitter":
+                        P = P + g.uniform(-0.4, 0.4, P.shape)
+                    elif op["pos"] == "serpentine":
+                        ys2 = ys.copy()
+                        ys2[1::2] = ys2[1::2, ::-1]
+                        P = np.stack([xs.ravel(), ys2.ravel()], -1).astype(np.float64)
+                    else:
+                        P = P[g.permutation(n)]
+                    if np.linalg.matrix_rank(P - P.mean(0), tol=1e-6) >= 2:
+                        pos = np.ascontiguousarray(P.astype(np.float32))
+                        bump(probes, "forward_with_explicit_positions")
+                b = op["b"]
+                twin = _ctx["om"].CenterOfMassOriginModel.from_dataset(
+                    _ctx["D4"].from_array(_lay(a, lay), **cal))
+                # step by step on the twin
+                twin.calculate_origin(b)
+                if op["fit"]:
+                    twin.fit_origin_background(None if pos is None else pos.copy(), op["method"])
+                    if op["shift"]:
+                        twin.shift_origin_to(tuple(op["coord"]), b, op["mode"])
+                # one call on the working instance
+                args = dict(max_batch_size=b, fit_origin_bkg=op["fit"],
+                            probe_positions=None if pos is None else pos.copy(), fit_method=op["method"],
+                            estimate_detector_orientation=False, shift_to_origin=op["shift"],
+                            origin_coordinate=tuple(op["coord"]), mode=op["mode"])
+                if op["kw"]:
+                    model.forward(**args)
+                else:
+                    model.forward(args["max_batch_size"], args["fit_origin_bkg"], args["probe_positions"],
+                                  args["fit_method"], False, None, args["shift_to_origin"],
+                                  args["origin_coordinate"], args["mode"])
+                bsizes.add(b if b is not None else n)
+                res["steps"] += 1
+                pairs = [("origin_measured", model.origin_measured, twin.origin_measured)]
+                if op["fit"]:
+                    pairs.append(("origin_fitted", model.origin_fitted, twin.origin_fitted))
+                    if op["shift"]:
+                        pairs.append(("shifted_tensor", model.shifted_tensor, twin.shifted_tensor))
+                for nm, x_, y_ in pairs:
+                    if x_ is None or y_ is None or tuple(x_.shape) != tuple(y_.shape) or not bool(
+                            torch.allclose(x_, y_, rtol=1e-5, atol=1e-6 * float(max(1.0, a.max())),
+                                           equal_nan=True)):
+                        viol("forward_differs_from_steps", f"{tag}: {nm} after forward(fit={op['fit']}, "
+                             f"positions={op['pos'] if pos is not None else None}, method={op['method']}, "
+                             f"shift={op['shift']}, coord={op['coord']}, mode={op['mode']}, "
+                             f"{'keywords' if op['kw'] else 'positional'}) differs from the step-by-step "
+                             f"calls with the same arguments", f"forward_differs_from_steps:{nm}")
+                        break
+                got = model.origin_measured.detach().numpy().astype(np.float64)
+                if got.shape == ref.shape and not np.abs(got - ref).max() <= tol:
+                    viol("com_mismatch", f"{tag}: origin_measured after forward() deviates "
+                         f"{np.abs(got - ref).max():.3g} px", "com_mismatch:origin_model:forward")
+                have_measured = True
+                have_fitted = have_fitted or op["fit"]
+                shifted_once = shifted_once or (op["fit"] and op["shift"])
             elif k == "plant_plane_pos":
                 bump(probes, "planted_plane_explicit_positions")
                 g = np.random.Generator(np.random.PCG64(op["seed"]))
